@@ -57,3 +57,35 @@ Section NdJson.
     | None => false
     end.
 End NdJson.
+
+(* ---- magic.Csv / magic.Tsv on the quote-free fragment of encoding/csv --------------------------------
+   (LazyQuotes, Comment '#', FieldsPerRecord fixed by the first record, ReuseRecord).  Inputs containing a
+   double quote are outside the model (None). *)
+Section Csv.
+  Variable sep : byte.
+
+  (* raw lines as csv.Reader.readLine delivers them: split at '\n'; "\r\n" counts as "\n"; a final '\r' at
+     end of input is dropped *)
+  Definition csv_line (terminated : bool) (l : bytes) : bytes :=
+    match rev l with
+    | 13 :: r => rev r
+    | _ => l
+    end.
+  Fixpoint csv_split (l cur : bytes) : list bytes :=      (* cur reversed *)
+    match l with
+    | [] => match cur with [] => [] | _ => [csv_line false (rev cur)] end
+    | c :: l' => if c =? 10 then csv_line true (rev cur) :: csv_split l' [] else csv_split l' (c :: cur)
+    end.
+  Definition is_record (l : bytes) : bool :=
+    match l with [] => false | c :: _ => negb (c =? 35) end.    (* empty lines and '#' comments are skipped *)
+  Definition field_count (l : bytes) : nat := S (length (filter (N.eqb sep) l)).
+
+  Definition csv_records (inp : bytes) : list nat := map field_count (filter is_record (csv_split inp [])).
+
+  Definition sv_model (inp : bytes) (limit : N) : option bool :=
+    if existsb (N.eqb 34) inp then None else
+    match csv_records (drop_last_line inp limit) with
+    | [] => Some false
+    | n :: rest => Some (forallb (Nat.eqb n) rest && Nat.ltb 1 n && Nat.ltb 0 (length rest))
+    end.
+End Csv.
